@@ -19,6 +19,7 @@ import JsonV.Lemmas.GlueQuote
 import JsonV.Lemmas.QuoteSpan
 import JsonV.Lemmas.QuoteJString
 import JsonV.Lemmas.QuoteReformat
+import JsonV.Lemmas.GlueNameKey
 import JsonV.Gen.Lits
 
 namespace JsonV.Props.C11
@@ -335,6 +336,30 @@ theorem quote_is_jstring (f : QFlags) (v : Bool) (s : Bytes) : JsonV.Spec.Gramma
 theorem quote_consumed (v : Bool) (f : QFlags) (s : Bytes) :
     ∃ nc, consumeString v (appendQuote f s).1 = ((appendQuote f s).1.length, Err.ok, nc) :=
   JsonV.Lemmas.QuoteJString.consumeString_appendQuote v f s
+
+/-! #### name keys (C01 `nameKey` / C12 `Fmt.nameKey`) -/
+
+/-- The name key of a literal of the selected mode (both UTF-8 modes) is its unquoted text. -/
+theorem nameKey_unquote (o : JsonV.Model.Validate.VOpts) (q : Bytes)
+    (h : JsonV.Spec.Grammar.JString (!o.allowInvalidUTF8) q) :
+    JsonV.Lemmas.WireValue.nameKey o q = (appendUnquote q).1 :=
+  JsonV.Lemmas.GlueNameKey.nameKey_unquote o q h
+
+/-- … stated on `unescapedName`/`valueString`, to which every `nameKey` of the framework unfolds, with `Wire.unquote`. -/
+theorem unescapedName_valueString (o : JsonV.Model.Validate.VOpts) (q : Bytes)
+    (h : JsonV.Spec.Grammar.JString (!o.allowInvalidUTF8) q) :
+    JsonV.Model.Validate.unescapedName q (JsonV.Model.Validate.valueString o q).2.1 = (JsonV.Model.Wire.unquote q).1 :=
+  JsonV.Lemmas.GlueNameKey.unescapedName_valueString o q h
+
+/-- C12's `NameKeyUnquote`, verbatim. -/
+theorem fmt_nameKey_unquote : ∀ (o : JsonV.Fmt.FOpts) (raw : Bytes),
+    JsonV.Spec.Grammar.JString (!o.allowInvalidUTF8) raw → JsonV.Fmt.nameKey o raw = (JsonV.Model.Wire.unquote raw).1 :=
+  JsonV.Lemmas.GlueNameKey.fmt_nameKey_unquote
+
+/-- The name key of AppendQuote's output is the (lossy) Go string, for every flag set and both UTF-8 modes. -/
+theorem nameKey_appendQuote (o : JsonV.Model.Validate.VOpts) (f : QFlags) (s : Bytes) :
+    JsonV.Lemmas.WireValue.nameKey o (appendQuote f s).1 = lossy s :=
+  JsonV.Lemmas.GlueNameKey.nameKey_appendQuote o f s
 
 /-- This slice's RFC 8259 meaning theorem, for C01's `unquote`. -/
 theorem wire_unquote_meaning (lit m : Bytes) (h : StringLiteral lit m) :
